@@ -267,6 +267,21 @@ func runC07(c *Ctx) {
 		depth := r.Range(1, 6)
 		e1 := eg.gen(depth)
 		e2 := eg.gen(r.Range(0, 3))
+		if probe < 6 && r.Chance(1, 25) {
+			// values at the very ends of the 32-bit range, spelled in several ways (both ends are in range)
+			lit := func(v int) asm.Expr { return asm.Lit{V: v} }
+			neg := func(x asm.Expr) asm.Expr { return asm.Un{Signs: "-", X: x} }
+			ends := []asm.Expr{
+				neg(lit(2147483648)), lit(2147483647), asm.Bin{Op: '-', L: neg(lit(2147483647)), R: lit(1)}, asm.Bin{Op: '+', L: lit(2147483646), R: lit(1)},
+				neg(asm.Par{X: lit(2147483648)}), asm.Bin{Op: '-', L: asm.Bin{Op: '*', L: lit(65536), R: lit(32768)}, R: lit(1)}, asm.Bin{Op: '*', L: neg(lit(65536)), R: lit(32768)},
+				asm.Bin{Op: '-', L: lit(0), R: lit(2147483648)}, asm.Bin{Op: '/', L: neg(lit(2147483648)), R: lit(1)}, asm.Bin{Op: '%', L: neg(lit(2147483648)), R: lit(7)},
+			}
+			e1 = ends[r.Intn(len(ends))]
+			if r.Bool() {
+				e2 = ends[r.Intn(len(ends))]
+			}
+			c.Inc("operands_at_the_ends_of_the_32_bit_range")
+		}
 		dat := func(labels ...string) *asm.Instr {
 			return &asm.Instr{Labels: labels, Op: "dat", A: asm.Operand{Mode: '#', E: asm.Lit{V: 0}}, B: &asm.Operand{Mode: '#', E: asm.Lit{V: 0}}}
 		}
